@@ -180,6 +180,49 @@ def through_executor(rep, known):
                 bad = verify_output(arr, region)
                 if bad or everywhere != region:
                     rep.violation(f"exe-{n}", f"rendered job options wrong: {bad or 'script lines outside their region'}: {q}", {"query": q, "region": region})
+    n += repeated_lines_through_executor(rep)
+    return n
+
+
+def repeated_lines_through_executor(rep):
+    """Blocks whose line texts recur (across blocks, inside one block, differing only in letter case): the rendered job
+    options must contain every block's lines exactly, in the (here unique) dependency order."""
+    from mc.core.translate import translate
+    scen = {
+        "shared-line": ([("a", ["from X import tool", "a = tool(1)"], []), ("b", ["from X import tool", "b = tool(2)"], ["a"])], ["a", "b"]),
+        "repeat-inside": ([("a", ["#----", "x = 1", "#----", "y = 2"], [])], ["a"]),
+        "case-only": ([("a", ["tool = mk('x')"], []), ("b", ["Tool = mk('x')"], ["a"])], ["a", "b"]),
+        "three-sharing": ([("a", ["pass"], []), ("b", ["pass"], ["a"]), ("c", ["pass"], ["b"])], ["a", "b", "c"]),
+        "blank-and-indent": ([("a", ["if x:", "    y = 1", "", "if z:", "    y = 1"], [])], ["a"]),
+    }
+    n = 0
+    for sname, (blocks, order) in scen.items():
+        for perm in __import__("itertools").permutations(range(len(blocks))):
+            src = "ds"
+            for i in perm:
+                nm, script, deps = blocks[i]
+                src = f"MetaData({src}, {{'metadata_type': 'add_job_script', 'name': {nm!r}, 'script': {script!r}, 'depends_on': {deps!r}}})"
+            q = src + ".Select(lambda e: e.Jets('A').Count())"
+            pkg = translate(q, "atlas")
+            n += 1
+            if not pkg.ok:
+                rep.violation(f"exe-rep-{sname}-{n}", f"blocks with repeated line texts refused: {pkg.exc_type}: {pkg.exc_msg} :: {q[:200]}", {"query": q})
+                continue
+            txt = pkg.files["ATestRun_eljob.py"].split("\n")
+            i0 = next(i for i, l in enumerate(txt) if l.strip() == "job.sampleHandler(sh)")
+            i1 = next(i for i, l in enumerate(txt) if "createAlgorithm('query'" in l)
+            region = [l for l in txt[i0 + 1:i1] if not l.startswith("# Create the algorithm")]
+            while region and region[0] == "":
+                region.pop(0)
+            while region and region[-1] == "":
+                region.pop()
+            want = [l for nm in order for l in dict((b[0], b[1]) for b in blocks)[nm]]
+            got = [l for l in region]
+            # the template puts an empty line after every inserted line
+            got_nonempty = [l for l in got if l != ""]
+            want_nonempty = [l for l in want if l != ""]
+            if got_nonempty != want_nonempty:
+                rep.violation(f"exe-rep-{sname}-{n}", f"rendered job options hold {got_nonempty} instead of {want_nonempty} for blocks {blocks} (arrival {perm})", {"query": q, "scenario": sname})
     return n
 
 
